@@ -35,7 +35,7 @@ Definition espec_step (c : ecfg) (m : amap) (o : eop) : amap * option (result (l
            end
   | ERemove a =>
       if negb (mem a (akeys m)) then (m, None) else (adel a m, Some (Ok []))
-  | _ => (m, equery c m (fun a => aget a m) (length m) o)
+  | _ => (m, equery c m (fun a => aget a m) (fun a => aget a m) (length m) o)
   end.
 
 Definition spec_view (m : amap) : list Z :=
@@ -313,8 +313,25 @@ Proof.
 Qed.
 
 (* ---------------------------------------------------------------- one step simulates the specification *)
-Lemma equery_ext c m g1 g2 n o : (forall a, g1 a = g2 a) -> equery c m g1 n o = equery c m g2 n o.
-Proof. intros H. destruct o; simpl; rewrite ?H; reflexivity. Qed.
+Lemma positions_of_ext g1 g2 l : (forall a, g1 a = g2 a) -> positions_of g1 l = positions_of g2 l.
+Proof. intros H. induction l as [|a t IH]; simpl; [reflexivity|]. rewrite H, IH. reflexivity. Qed.
+
+Lemma equery_ext c m g1 g2 h1 h2 n o :
+  (forall a, g1 a = g2 a) -> (forall a, h1 a = h2 a) -> equery c m g1 h1 n o = equery c m g2 h2 n o.
+Proof.
+  intros H H'. destruct o; simpl; rewrite ?H, ?(positions_of_ext h1 h2 _ H'); reflexivity.
+Qed.
+
+Lemma getrow_abs s a : EInv s -> e_getrow s a = aget a (e_abs s).
+Proof.
+  intros Hinv. rewrite <- (getpos_abs s a Hinv). pose proof Hinv as [H1 [H2 [H3 H4]]].
+  unfold e_getrow, e_getpos, get_position, e_rows.
+  destruct (mem a (e_active s)); [|reflexivity].
+  rewrite H4. destruct (index_of a (e_active s)) as [idx|] eqn:Hi; [|reflexivity].
+  pose proof (index_of_lt _ _ _ Hi) as Hlt.
+  rewrite <- (firstn_skipn (e_n s) (e_store s)) at 1.
+  rewrite nth_error_app1 by (rewrite firstn_length; lia). reflexivity.
+Qed.
 
 Lemma mem_active_abs s a : EInv s -> mem a (akeys (e_abs s)) = mem a (e_active s).
 Proof. intros H. rewrite e_abs_keys by exact H. reflexivity. Qed.
@@ -338,10 +355,12 @@ Lemma estep_sim c s o : EInv s ->
   espec_step c (e_abs s) o = (e_abs (fst (estep c s o)), snd (estep c s o)).
 Proof.
   intros Hinv.
-  assert (Hq : forall o', equery c (combine (e_active s) (e_rows s)) (e_getpos s) (e_n s) o'
-                          = equery c (e_abs s) (fun a => aget a (e_abs s)) (length (e_abs s)) o').
-  { intros o'. rewrite (e_abs_length s Hinv). apply equery_ext. intros a. apply getpos_abs. exact Hinv. }
-  destruct o as [a p|a p|a|q|q r|q k out|q|a r|a k out|a b];
+  assert (Hq : forall o', equery c (combine (e_active s) (e_rows s)) (e_getpos s) (e_getrow s) (e_n s) o'
+                          = equery c (e_abs s) (fun a => aget a (e_abs s)) (fun a => aget a (e_abs s))
+                                   (length (e_abs s)) o').
+  { intros o'. rewrite (e_abs_length s Hinv).
+    apply equery_ext; intros a; [apply getpos_abs|apply getrow_abs]; exact Hinv. }
+  destruct o as [a p|a p|a|q|q r|q k out|q|a r|a k out|a b|q l|q l];
     try (cbn [estep espec_step fst snd]; rewrite Hq; split; [exact Hinv|reflexivity]).
   - (* EAdd *)
     cbn [estep espec_step]. rewrite (mem_active_abs s a Hinv).
@@ -486,7 +505,7 @@ Qed.
 Lemma espec_step_track c m o a :
   aget a (fst (espec_step c m o)) = e_track c a (aget a m) o.
 Proof.
-  destruct o as [b p|b p|b|q|q r|q k out|q|b r|b k out|b b']; cbn [espec_step e_track fst]; try reflexivity.
+  destruct o as [b p|b p|b|q|q r|q k out|q|b r|b k out|b b'|q l|q l]; cbn [espec_step e_track fst]; try reflexivity.
   - (* EAdd *)
     rewrite (mem_keys_aget m b).
     destruct (Z.eq_dec b a) as [->|Hne].
@@ -557,7 +576,7 @@ Proof.
   intros H. pose proof (exp_reachable_inv c ops) as Hinv.
   destruct (estep_sim c _ o Hinv) as [_ Hsim]. rewrite H in Hsim. cbn [fst snd] in Hsim.
   revert Hsim. generalize (e_abs (e_final c (e_init c) ops)) as m. intros m.
-  destruct o as [b p|b p|b|q|q r|q k out|q|b r|b k out|b b']; cbn [espec_step].
+  destruct o as [b p|b p|b|q|q r|q k out|q|b r|b k out|b b'|q l|q l]; cbn [espec_step].
   - destruct (_ || _ || _) eqn:Eg; [intros Hs; inversion Hs|].
     unfold norm_pos. destruct (in_closed (ec_bounds c) p); [intros Hs; inversion Hs|].
     destruct (ec_torus c); intros Hs; inversion Hs. reflexivity.
@@ -576,6 +595,10 @@ Proof.
     destruct (knn_legal _ _ _); intros Hs; inversion Hs.
   - cbn [equery]. destruct (aget b m); [|intros Hs; inversion Hs].
     destruct (aget b' m); intros Hs; inversion Hs.
+  - cbn [equery]. destruct (negb _); [intros Hs; inversion Hs|].
+    destruct (positions_of _ l); intros Hs; inversion Hs.
+  - cbn [equery]. destruct (negb _); [intros Hs; inversion Hs|].
+    destruct (positions_of _ l); intros Hs; inversion Hs.
 Qed.
 
 (* C18_continuous_atomic_exp_position: a rejected call leaves the whole state unchanged *)
@@ -585,7 +608,7 @@ Proof.
   intros H. pose proof (exp_no_internal_error c ops o s' e H) as He. subst e.
   pose proof (exp_reachable_inv c ops) as Hinv. revert H.
   generalize dependent (e_final c (e_init c) ops). intros s Hinv.
-  destruct o as [b p|b p|b|q|q r|q k out|q|b r|b k out|b b']; cbn [estep];
+  destruct o as [b p|b p|b|q|q r|q k out|q|b r|b k out|b b'|q l|q l]; cbn [estep];
     try (intros H; inversion H; reflexivity).
   - destruct (_ || _ || _) eqn:Eg; [intros H; inversion H|].
     apply orb_false_iff in Eg. destruct Eg as [Eg Eoob]. apply orb_false_iff in Eg. destruct Eg as [_ Em].
@@ -889,3 +912,9 @@ Proof.
   - unfold akeys, distances. rewrite map_map. cbn [fst]. exact Hnd.
   - unfold distances. rewrite map_length, (e_abs_length _ Hinv). exact Hk.
 Qed.
+
+(* C18_continue: after a rejected call the rest of the history behaves as if the call had not been made *)
+Theorem exp_continue c ops o s' e rest :
+  estep c (e_final c (e_init c) ops) o = (s', Some (Err e)) ->
+  e_run c s' rest = e_run c (e_final c (e_init c) ops) rest.
+Proof. intros H. rewrite (exp_atomic c ops o s' e H). reflexivity. Qed.
